@@ -14,7 +14,7 @@ from .. import engine, common
 
 ID = "C04"
 FLAVS = ["full", "bare", "notsync"]
-FORMS = ["inline", "where", "impl", "split", "dup"]
+FORMS = ["inline", "where", "impl", "split", "dup", "relaxed", "implrelaxed"]   # the last two: `?Sized` next to the bounds (lifts a requirement, adds none)
 MOCKS = ["none", "mockall", "mockall_false", "api_only", "unimock", "unimock_false", "mockall_unimock_false", "api_mockall_false"]
 # two of the three bounds are instantiations of ONE generic trait: a bound is its whole path, generic arguments included
 BN = ["B0", "G<u8>", "G<u16>"]
@@ -43,6 +43,10 @@ def fn_src(name, mask, form, byval, vis="pub ", asy=False):
         vis = vis + "async "
     bs = bounds(mask)
     ty = "D" if byval else "&D"
+    if form == "implrelaxed":
+        return "%sfn %s(deps: &(impl %s)) -> u8 { 0 }" % (vis, name, " + ".join(bs + ["?Sized"]))
+    if form == "relaxed":
+        return "%sfn %s<D: %s>(deps: &D) -> u8 { 0 }" % (vis, name, " + ".join(bs + ["?Sized"]))
     if form == "impl":
         b = " + ".join(bs) if bs else "Sized"
         dep = ("impl %s" % b) if byval else ("&(impl %s)" % b)
@@ -78,7 +82,9 @@ def enumerate_states(tier):
     for mask, form, byval, mock, feature, asy in itertools.product(range(8), FORMS, (False, True), MOCKS, (False, True), (False, True, "ms")):
         if mock == "unimock" and not feature:
             continue  # the unimock derive needs the crate feature
-        if asy and (tier != "thorough") and (mock not in ("none", "mockall") or form in ("split", "dup")):
+        if byval and form in ("relaxed", "implrelaxed"):
+            continue  # an unsized dependency cannot be taken by value
+        if asy and (tier != "thorough") and (mock not in ("none", "mockall") or form in ("split", "dup", "relaxed", "implrelaxed")):
             continue  # async / async + ?Send: on the main mock settings and declaration forms
         states.append(dict(key="b_fn_%d_%s_%s_%s_%s%s" % (mask, form, "val" if byval else "ref", mock, "fon" if feature else "foff",
                                                          {False: "", True: "_async", "ms": "_asyncms"}[asy]),
